@@ -21,12 +21,20 @@ RULE = ('script trees: 1..8 directories (depth <= 5, names incl. blanks, dots, a
         'every assigned / exported value is globally unique so the origin of a value seen anywhere is known. '
         'User arguments: 1..4 declarations (names with dashes, =, blanks, x-, enable-/with- look-alikes, duplicates, '
         'bad names) x 5 actions, command lines of plain and --x- spellings, =value and separate values, unknown '
-        'options, stray words.  A case is non-trivial when the tree has a nested submodule or a rejected/../ path '
+        'options, stray words; in front of them a fixed list of declarations with the EMPTY name (the bare double dash as '
+        'first / middle / last / only / repeated option string, under each of the 5 actions, in a parse and in a help group) '
+        'and its look-alikes, each with 14 fixed command lines respelled token by token.  The variant of add_user_argument '
+        'under test (does a nameless option string raise ValueError?) is probed on the real function; the model runs as that '
+        'variant and the finding C19-x-alias-empty-name applies only to the unrepaired one - on the repaired one an accepted '
+        'nameless declaration is reported with the command line whose two spellings differ.  A case is non-trivial when the tree has a nested submodule or a rejected/../ path '
         '(scripts) resp. at least one accepted declaration and one option token (arguments); distinct by exact text.')
 TRUSTED = ('Python semantics of exec / name lookup beyond globals-then-builtins; argparse (only the registration, '
            'defaults and long-option parsing fragment is modelled, checked against the real parser each run)',
            'os.path.expanduser modelled as the identity (no generated path starts with a tilde of an existing user)',
-           'direct oracles: unique-value provenance of every read/export, os.path.normpath on the real scratch tree')
+           'direct oracles: unique-value provenance of every read/export, os.path.normpath on the real scratch tree',
+           'variant detection: the probe (harness/c19.py alias_variant) calls the real add_user_argument of the tree under test '
+           'with a nameless second option string and looks at ValueError / the registered strings; an undecidable probe is '
+           'reported, not assumed')
 EXPLANATION = ''
 
 FN_BUILD, FN_OPTS = 'build.bfg', 'options.bfg'
@@ -884,6 +892,113 @@ def d_ns(raw):
     return sorted(out)
 
 
+# ----- which add_user_argument is under test (finding C19-x-alias-empty-name)
+ALIAS_ID = 'C19-x-alias-empty-name'
+ALIAS_CLASS = 'x-alias-empty-name'
+_VARIANT = {}
+
+
+def alias_variant(rep=None):
+    """The variant of arguments/parser.py add_user_argument in the tree under test, found by calling the REAL function:
+    an option string without a name (the bare double dash, what the `argument` builtin hands over for the name '') is
+    given as SECOND name of a store argument of a 'parse' group (as first name argparse itself rejects it: no dest).
+    True iff that raises ValueError (the repaired function), False when it is accepted and registered (as first
+    written).  Probed once per process.  A probe that cannot be decided is reported (no-failing-input-found) and counts
+    as 'not repaired'."""
+    if 'v' in _VARIANT:
+        return _VARIANT['v']
+    try:
+        from bfg9000.arguments import parser as ap
+        p = ap.ArgumentParser(prog='c19probe', add_help=False)
+        g = p.add_argument_group('project-defined arguments')
+        g.usage = 'parse'
+        try:
+            ap.add_user_argument(g, '--variantprobe', '--', action='store')
+            if '--' not in p._option_string_actions or '--variantprobe' not in p._option_string_actions:
+                raise RuntimeError('the nameless option string was accepted but is not registered: %r' % (
+                    sorted(p._option_string_actions),))
+            _VARIANT['v'] = False
+            _VARIANT['detail'] = "add_user_argument(g, '--variantprobe', '--') registered %r" % (
+                sorted(p._option_string_actions),)
+        except ValueError as e:
+            _VARIANT['v'] = True
+            _VARIANT['detail'] = "add_user_argument(g, '--variantprobe', '--') raised ValueError(%r)" % (str(e),)
+    except Exception:
+        import traceback
+        _VARIANT['v'] = False
+        _VARIANT['detail'] = 'probe failed'
+        if rep is not None:
+            rep.fail('the variant of add_user_argument in the tree under test could not be determined (probe with a nameless '
+                     'option string neither raised ValueError nor registered it)',
+                     {'obligation': 'variant probe', 'traceback': traceback.format_exc()}, found_input=False)
+    return _VARIANT['v']
+
+
+def own_findings():
+    try:
+        return json.load(open(os.path.join(common.VERIF, 'findings.d', 'C19.json')))
+    except (OSError, ValueError):
+        return []
+
+
+def alias_finding_status():
+    """top-level status of the finding in findings.d/C19.json ('open' until the repair has landed in /repo)"""
+    for k in own_findings():
+        if k.get('id') == ALIAS_ID:
+            return k.get('status')
+    return None
+
+
+def model_variant(rep=None):
+    """The `fixed` flag the UserArgs MODEL is run with (Misc/UserArgs.v user_names / declare): the repaired function when
+    the tree under test has it, and also - whatever the tree has - once the finding is recorded as fixed: a tree that
+    accepts a nameless option string again then disagrees with the model in W:userargs as well."""
+    return bool(alias_variant(rep) or alias_finding_status() == 'fixed')
+
+
+def select_findings(rep):
+    """Which known findings apply to THIS run.  findings.d/C19.json is authoritative for its ids (known_findings.json is
+    merged from it by the coordinator).  The empty-name finding depends on the variant of add_user_argument under test:
+      repaired tree              -> it counts as FIXED: not in rep.known, no KNOWN-FINDING line, an accepted nameless
+                                    declaration / a differing spelling is a VIOLATION;
+      unrepaired, status 'open'  -> known finding (KNOWN-FINDING line);
+      unrepaired, status 'fixed' -> a regression: nothing is suppressed, the differing spellings are a VIOLATION.
+    Returns (repaired, top-level status)."""
+    repaired = alias_variant(rep)
+    own = [k for k in own_findings() if k.get('property') == 'C19']
+    ids = set(k['id'] for k in own)
+    rep.known = [k for k in rep.known if k['id'] not in ids]
+    for k in own:
+        if k.get('status') != 'open':
+            continue
+        if k['id'] == ALIAS_ID and repaired:
+            continue
+        rep.known.append(k)
+    status = alias_finding_status()
+    rep.stage('variant:add_user_argument', repaired=repaired, probe=_VARIANT.get('detail'), finding_status=status,
+              model_fixed=model_variant(rep), finding_applies=any(k['id'] == ALIAS_ID for k in rep.known))
+    return repaired, status
+
+
+def nameless(decls):
+    """indices of the declarations that hand add_user_argument an option string without a name, all names well-formed
+    otherwise (every name starts with two dashes) - the ones the repaired function must reject with ValueError"""
+    return [i for i, (names, _) in enumerate(decls) if '--' in names and all(nm.startswith('--') for nm in names)]
+
+
+# declarations / command lines that run first in every W:userargs stage, on both variants: the empty name in every position
+# and under every action, next to look-alikes that must stay legal (an empty name under a toggle prefix, a name that is a dash)
+DIRECTED_DECLS = [
+    [(['--foo', '--'], 0)], [(['--foo', '--'], 1)], [(['--foo', '--'], 2)], [(['--foo', '--'], 3)], [(['--foo', '--'], 4)],
+    [(['--', '--foo'], 0)], [(['--'], 0)], [(['--'], 3)], [(['--'], 4)], [(['--bar'], 1), (['--foo', '--'], 0)],
+    [(['--bar'], 0), (['--baz', '--', '--qux'], 0)], [(['--foo', '--', '--'], 0)], [(['--foo', '--', '--x-'], 0)],
+    [(['--foo', '--', '-'], 0)], [(['--foo', '---'], 0)], [(['--foo', '--='], 0)], [(['--foo', '-- '], 0)],
+    [(['--foo'], 0), (['--enable'], 3)], [(['--foo', '--x'], 0)],
+]
+DIRECTED_ARGV = [['--', 'v'], ['--'], ['--foo', 'v', '--'], ['--=v'], ['--foo=v'], ['--foo', 'v'], ['--x-', 'v'], ['--x-=v'],
+                 ['--', '--foo', 'v'], ['--foo'], ['--enable-'], ['--disable-'], ['--with-'], ['--without-', '--']]
+
+
 def classify_alias_failure(decls, argv, plain=None, x=None):
     """finding classes of a command line whose two spellings parse differently (plain / x: what the two spellings parse to).
     x-alias-empty-name: an argument named '' registers the bare double dash AND the failure is the one the finding describes -
@@ -894,10 +1009,36 @@ def classify_alias_failure(decls, argv, plain=None, x=None):
     return ()
 
 
+def report_nameless_accepted(rep, decls, nl, p, usage):
+    """the repaired add_user_argument is expected, and the real one accepted declaration nl[0] although it names the bare
+    double dash: look for the command line that shows it (the plain spelling against the --x- spelling) and report it as a
+    failing input; without such a command line the acceptance alone is left to W:userargs (model: ValueError)"""
+    names, act = decls[nl[0]]
+    flag = ACTIONS[act] != 'store'
+    for argv, argv_x in ((['--'], ['--x-']) if flag else (['--', 'v'], ['--x-', 'v']),
+                         (['--=v'], ['--x-=v']), (['--', 'v'], ['--x-', 'v']), (['--'], ['--x-'])):
+        if not usage:
+            break
+        r, r2 = real_parse(p, argv), real_parse(p, argv_x)
+        if r != r2:
+            rep.fail('declaration %r (argument(%s, action=%r) in options.bfg) names the bare double dash and is ACCEPTED '
+                     '(add_user_argument must reject an option string without a name with ValueError); command line %r '
+                     'parses to %r but its --x- spelling %r parses to %r' % (
+                         decls[nl[0]], ', '.join(repr(nm[2:]) for nm in names), ACTIONS[act], argv, r, argv_x, r2),
+                     {'decls': decls, 'declaration': nl[0], 'argv': argv, 'argv_x': argv_x, 'plain': r, 'x': r2},
+                     classes=classify_alias_failure(decls, argv, r, r2))
+            return 1
+    return 0
+
+
 def stage_userargs(rep, rng, n):
     from bfg9000.arguments import parser as ap
     calls, impl = [], []
     found = 0
+    # variant of add_user_argument under test -> model variant (the `fixed` flag of every userargs.* table entry) and
+    # whether the empty-name finding applies to this run
+    repaired, status = select_findings(rep)
+    fixed = model_variant(rep)
     # ToggleAction._prefix
     for i in range(n // 2):
         s = rng.choice(['--', '--x-', '-', '', '--x', 'x']) + ''.join(rng.choice('abx-') for _ in range(rng.randint(0, 5)))
@@ -908,12 +1049,24 @@ def stage_userargs(rep, rng, n):
             iv = None
         calls.append(('userargs.toggle_prefix', [s, pre]))
         impl.append(iv)
-    for i in range(n):
-        decls = gen_decls(rng)
-        usage = rng.random() < 0.85
+    directed = [(d, u) for d in DIRECTED_DECLS for u in (True, False)]
+    for i in range(len(directed) + n):
+        if i < len(directed):
+            decls, usage = directed[i]
+        else:
+            decls = gen_decls(rng)
+            usage = rng.random() < 0.85
         p, err = real_parser(decls, 'parse' if usage else 'help')
         mdecls = [[names, act] for names, act in decls]
-        calls.append(('userargs.declare', [usage, mdecls]))
+        calls.append(('userargs.declare', [fixed, usage, mdecls]))
+        nl = nameless(decls)
+        if nl:
+            rep.count('decl:nameless:' + ('rejected' if p is None and err == (nl[0], 'ValueError') else
+                                          'accepted' if p is not None else 'other-error'))
+        if fixed and nl and p is not None:
+            # direct oracle on the implementation, repaired variant: a declaration that names the bare double dash must be
+            # rejected; one that is accepted again is reported with the command line whose two spellings differ
+            found += report_nameless_accepted(rep, decls, nl, p, usage)
         if p is None:
             impl.append(('declerr', err[0], err[1]))
             rep.count('decl:' + err[1])
@@ -922,17 +1075,17 @@ def stage_userargs(rep, rng, n):
         table = real_table(p)
         impl.append(('table', table, [(a.dest,) for a in p._actions]))
         rep.count('decl:ok')
-        for _ in range(4):
-            argv = gen_argv(rng, decls, table, p)
+        for j in range(len(DIRECTED_ARGV) if i < len(directed) else 4):
+            argv = DIRECTED_ARGV[j] if i < len(directed) else gen_argv(rng, decls, table, p)
             r = real_parse(p, argv)
-            calls.append(('userargs.parse', [usage, mdecls, argv]))
+            calls.append(('userargs.parse', [fixed, usage, mdecls, argv]))
             impl.append(r)
             rep.count('parse:' + (r if isinstance(r, str) else 'ok'))
             rep.case('a:%r:%r' % (decls, argv), any(t.startswith('--') for t in argv))
             if usage:
-                mask = [rng.random() < 0.7 for _ in argv]
+                mask = [True for _ in argv] if i < len(directed) else [rng.random() < 0.7 for _ in argv]
                 argv2 = py_respell(table, mask, argv)
-                calls.append(('userargs.respell', [usage, mdecls, mask, argv]))
+                calls.append(('userargs.respell', [fixed, usage, mdecls, mask, argv]))
                 impl.append(argv2)
                 # direct oracle on the implementation: both spellings give the same namespace
                 r2 = real_parse(p, argv2)
@@ -976,7 +1129,7 @@ def stage_userargs(rep, rng, n):
             dis.append((i, (name, arg), iv, mv))
     nvm, ok, detail = common.vm_crosscheck(calls, raw, limit=60)
     rep.stage('W:userargs', cases=len(calls), disagreements=len(dis), outside_fragment=outside,
-              vm_compute_rechecked=nvm, vm_agrees=ok)
+              vm_compute_rechecked=nvm, vm_agrees=ok, model_variant='fixed' if fixed else 'as first written')
     if not ok:
         rep.fail('extraction glue: ' + detail, {'obligation': 'vm_compute == extracted model', 'detail': detail},
                  found_input=False)
@@ -1020,7 +1173,7 @@ def stage_options_file(rep, rng, n, bi_opts):
             finally:
                 os.chdir(cwd)
             mdecls = [[names, act] for names, act in decls]
-            raw = common.model_batch([('userargs.parse', [True, mdecls, argv])])[0]
+            raw = common.model_batch([('userargs.parse', [model_variant(rep), True, mdecls, argv])])[0]
             if raw[0] == 1:
                 mv = ('declerr', ['ValueError', 'TypeError', 'ArgumentError'][raw[2]])
             else:
@@ -1249,6 +1402,7 @@ def replay(rep, path):
             shutil.rmtree(d, ignore_errors=True)
         return
     if 'argv_x' in r:
+        select_findings(rep)
         p, err = real_parser([(n, a) for n, a in r['decls']], 'parse')
         if p is not None and real_parse(p, r['argv']) != real_parse(p, r['argv_x']):
             rep.fail('the plain and the --x- spelling still parse differently', r,
